@@ -68,13 +68,12 @@ fn queries(rng: &mut StdRng, st: &SymbolTable, ast: &[Stmt], src: &str, extra_na
     names.sort(); names.dedup();
     let mut spellings: Vec<String> = vec![];
     for n in &names {
-        spellings.push(n.clone()); spellings.push(n.to_uppercase()); spellings.push(n.to_lowercase());
+        spellings.push(n.clone()); spellings.push(n.to_ascii_uppercase()); spellings.push(n.to_ascii_lowercase());
         spellings.push(asmgen::recase(rng, n, 100));
-        if !n.is_empty() { spellings.push(format!("{n}_")); spellings.push(n[..n.len() - 1].to_string()); }
+        if !n.is_empty() { spellings.push(format!("{n}_")); let mut m = n.clone(); m.pop(); spellings.push(m); }
     }
     spellings.sort(); spellings.dedup();
     for sp in &spellings {
-        if !sp.is_ascii() { continue; }
         let r = js::guard(|| (st.lookup_label(sp), st.get_label_source(sp)));
         match r {
             Ok((a, s)) => q.push(json!({"q": "label", "arg": js::text(sp), "panic": 0, "addr": a.map(|v| v as i64).unwrap_or(-1),
@@ -156,6 +155,7 @@ pub fn cfg_for(rng: &mut StdRng, thorough: bool, faults: u32) -> ProgCfg {
 
 /// `lc3v emit asm [n=..] [faults=pct] [os=1]`: generated programs through the real parser + assembler.
 pub fn emit_asm(a: &Args, out: &mut Out) {
+    asmgen::EXOTIC_LABELS.with(|e| e.set(true));
     let mut rng = rng_for(a, 0xA53);
     let n = a.get_u64("n", if a.thorough() { 4000 } else { 450 });
     let faults = a.get_u64("faults", 50) as u32;
@@ -212,6 +212,24 @@ pub fn emit_asm(a: &Args, out: &mut Out) {
                 let r = asmgen::render(&mut rng, &p, &Style::plain());
                 let dbg = chance(&mut rng, 50);
                 let (rec, _) = asm_record(&mut rng, run, &r.text, dbg, Some(&p), true);
+                out.emit(rec);
+            }
+        }
+    }
+    // labels with non-ASCII word characters (letters without case, a non-ASCII digit, letters whose upper-case
+    // form has another length): defined once and referenced, defined twice (the error names both places), and
+    // declared external after a definition
+    if a.get_u64("bound", 1) == 1 {
+        for ch in ['\u{4e16}', '\u{fb01}', '\u{17f}', '\u{df}', '\u{663}'] {
+            let name = format!("a{ch}");
+            let p1 = vec![GStmt::new(".orig", 0x3000, 0, 0, 0), GStmt::new("ADD", 1, 1, 1, 0).with_label(&name), GStmt::lab("LD", 2, &name.to_ascii_uppercase()), GStmt::new(".end", 0, 0, 0, 0)];
+            let p2 = vec![GStmt::new(".orig", 0x3000, 0, 0, 0), GStmt::new("ADD", 1, 1, 1, 0).with_label(&name), GStmt::new("NOT", 1, 1, 0, 0).with_label(&name), GStmt::new(".end", 0, 0, 0, 0)];
+            let mut ext = GStmt::new(".external", 0, 0, 0, 2); ext.lbl = name.clone();
+            let p3 = vec![GStmt::new(".orig", 0x3000, 0, 0, 0), GStmt::new("ADD", 1, 1, 1, 0).with_label(&format!("x_{ch}{ch}")), GStmt::new(".end", 0, 0, 0, 0).with_label(&name), ext];
+            for p in [p1, p2, p3] {
+                run += 1;
+                let r = asmgen::render(&mut rng, &p, &Style::plain());
+                let (rec, _) = asm_record(&mut rng, run, &r.text, true, Some(&p), true);
                 out.emit(rec);
             }
         }
@@ -418,6 +436,7 @@ fn bracketings(xs: &[usize]) -> Vec<Tree> {
 fn tree_text(t: &Tree) -> String { match t { Tree::Leaf(i) => format!("{}", i + 1), Tree::Node(l, r) => format!("({} {})", tree_text(l), tree_text(r)) } }
 
 pub fn emit_link(a: &Args, out: &mut Out) {
+    asmgen::EXOTIC_LABELS.with(|e| e.set(true));
     let mut rng = rng_for(a, 0x11C);
     let n = a.get_u64("n", if a.thorough() { 1500 } else { 150 });
     let mut run = 0u64;
@@ -481,10 +500,18 @@ pub fn emit_link(a: &Args, out: &mut Out) {
 
 /// `lc3v emit rt`: single generated programs (exotic source text) through both object formats.
 pub fn emit_rt(a: &Args, out: &mut Out) {
+    asmgen::EXOTIC_LABELS.with(|e| e.set(true));
     let mut rng = rng_for(a, 0x27);
     let n = a.get_u64("n", if a.thorough() { 1500 } else { 150 });
     let mut run = 0u64;
     let mut made = 0;
+    // very large blocks (their byte counts exceed 16 bits) and a label behind them
+    for nw in [21845u32, 21846, 40000] {
+        run += 1;
+        let text = format!(".orig x3000\nBIG .blkw {nw}\nTAIL .fill x1234\n.end\n");
+        let (rec, o) = asm_record(&mut rng, run, &text, nw == 21846, None, false);
+        if let Some(o) = o { out.emit(json!({"ev": "Rt", "run": run, "src": rec["src"], "dbg": rec["dbg"], "obj": js::obj(&o), "rt": rt_json(&o), "panic": 0})); }
+    }
     while made < n && run < 6 * n {
         run += 1;
         let mut cfg = cfg_for(&mut rng, a.thorough(), 0);
@@ -794,6 +821,7 @@ const FMT_MAX: usize = 1800;
 /// the specification's WrittenFor; (2) arbitrary and adversarially structured byte strings through the real
 /// reader, to be compared with the specification's BinRead (accept/reject and the object), then written again.
 pub fn emit_fmt(a: &Args, out: &mut Out) {
+    asmgen::EXOTIC_LABELS.with(|e| e.set(true));
     let mut rng = rng_for(a, 0xF17);
     let n = a.get_u64("n", if a.thorough() { 6000 } else { 700 });
     // a pool of real objects
